@@ -20,7 +20,7 @@ CLAIMED = {
  "C09": ("spec/Store.tla (implementation-shaped model of the SQL data holder) is model-checked for UniqueExact over paged hashing and arbitrary representatives; executions of the real otel_to_pv with find_unique_graphs on exhaustive small and seeded larger forests are validated by TLC: UniqueExactP on the observed tables (shapes computed by the TLA+ operator), conformance to Store.tla.",
          "xxh64 collisions outside the model; one root per trace; includes histories through the command line with -ug", "4/C09-C15",
          "TLC model checking of spec/Store.tla + TLC trace validation (StoreObs.tla clauses, Store.tla conformance)"),
- "C10": ("spec/Store.tla is model-checked exhaustively over all streams up to the bound (3 ids x 2 versions x parents), all batch sizes, one and two ingesting runs: UniqueEid, NoCrash, IngestExact, LinksKept; the same streams and seeded longer ones are run through the real SQLDataHolder and every logged execution is validated by TLC (conformance to Store.tla incl. the inferred flush/filter/retry steps; IngestExactP on the observed tables).",
+ "C10": ("spec/Store.tla is model-checked exhaustively over all streams up to the bound (3 ids x 2 versions x parents, one id also under another trace id), all batch sizes, one and two ingesting runs: UniqueEid, NoCrash, IngestExact, LinksKept; the same streams and seeded longer ones are run through the real SQLDataHolder and every logged execution is validated by TLC (conformance to Store.tla incl. the inferred flush/filter/retry steps; IngestExactP on the observed tables).",
          "sqlite through SQLAlchemy; timestamps on a minute grid", "4/C09-C15",
          "TLC model checking of spec/Store.tla + TLC trace validation of logged executions"),
  "C11": ("Action properties CleanInconsistentExact / CleanWindowExact / CleanNamesExact on spec/Store.tla (declarative clause vs the association-table implementation) for every interleaving of ingestion; executions of the real cleaning on combinations of twelve (three of them with two anomalies in one trace) trace templates x buffers x batch sizes validated by TLC, plus the frame condition through the pipeline (twin scenario without the removed traces, PV sequences compared by TLC).",
